@@ -25,6 +25,8 @@ impl FdBackend {
             opts.custom_flags(libc::O_SYNC);
         }
 
+        #[cfg(feature = "verif")]
+        crate::wal::verif::io_event("open", path, use_o_sync as u64, 0);
         let file = opts.open(path)?;
         let metadata = file.metadata()?;
         let len = metadata.len() as usize;
@@ -139,6 +141,8 @@ fn create_storage_impl(path: &str) -> std::io::Result<StorageImpl> {
 #[derive(Debug)]
 pub(crate) struct SharedMmap {
     storage: StorageImpl,
+    #[cfg(feature = "verif")]
+    verif_path: String,
     last_touched_at: AtomicU64,
 }
 
@@ -160,6 +164,8 @@ impl SharedMmap {
             .as_millis() as u64;
         Ok(Arc::new(Self {
             storage,
+            #[cfg(feature = "verif")]
+            verif_path: path.to_string(),
             last_touched_at: AtomicU64::new(now_ms),
         }))
     }
@@ -169,6 +175,8 @@ impl SharedMmap {
         debug_assert!(offset <= self.storage.len());
         debug_assert!(self.storage.len() - offset >= data.len());
 
+        #[cfg(feature = "verif")]
+        crate::wal::verif::io_event("write", &self.verif_path, offset as u64, data.len() as u64);
         self.storage.write(offset, data);
 
         let now_ms = SystemTime::now()
@@ -189,6 +197,13 @@ impl SharedMmap {
     }
 
     pub(crate) fn flush(&self) -> std::io::Result<()> {
+        #[cfg(feature = "verif")]
+        {
+            crate::wal::verif::io_event("flush", &self.verif_path, 0, 0);
+            if crate::wal::verif::should_fail("flush") {
+                return Err(crate::wal::verif::injected("flush"));
+            }
+        }
         self.storage.flush()
     }
 
